@@ -68,7 +68,9 @@ class GeckoSnapshot:
                 self._re_config_and_log,
             ),
             # Match "STATV\x15\x16'\x00\x00\x00\x00\x00\x00\x00\x00\x00\x00\x00\x00\x00\x00\x00\x00\x00\x00\x00\x00\x00\x00\x00\x00\x00\x00\x00\x00\x00\x00\x00\x00\x00\x00\x00\x00\x00\x00\x00</DATAS>"  # noqa: E501
-            (r"(STATV.*)</DATAS>", self._re_data_segment),
+            # (anchored to the packet framing: the unwrapped content is logged too and
+            # would match again if the segment's own bytes contain a closing tag)
+            (r"<DATAS>(STATV.*)</DATAS></PACKT>", self._re_data_segment),
         ]
 
     def _re_snapshot(self, groups):
